@@ -1,4 +1,5 @@
 import FFVerif.Props.C19
+import FFVerif.Props.C19Engine
 import FFVerif.Pins.pinFID
 import FFVerif.Pins.pinSE
 import FFVerif.Pins.pinPDD
@@ -18,6 +19,29 @@ import FFVerif.Pins.pinUDD
 #print axioms FFVerif.C19.cddY_two
 #print axioms FFVerif.C19.cddY_succ
 #print axioms FFVerif.C19.cdd_closed_form
+#print axioms FFVerif.C19.isEigh_zero
+#print axioms FFVerif.C19.hamiltonian_no_control
+#print axioms FFVerif.C19.propagators_no_control
+#print axioms FFVerif.C19.noControl_of_diagonalize
+#print axioms FFVerif.C19.mask_current
+#print axioms FFVerif.C19.maskThr_nonneg
+#print axioms FFVerif.C19.cm_no_control_of_mask
+#print axioms FFVerif.C19.cm_no_control
+#print axioms FFVerif.C19.cm_no_control_error
+#print axioms FFVerif.C19.cm_no_control_closed
+#print axioms FFVerif.C19.ff_no_control_sigma_z
+#print axioms FFVerif.C19.ff_no_control_sigma_z_error
+#print axioms FFVerif.C19.engine_sign_sequence
+#print axioms FFVerif.C19.engine_eq_ddF
+#print axioms FFVerif.C19.engine_eq_ddF_error
+#print axioms FFVerif.C19.engine_fid
+#print axioms FFVerif.C19.engine_se
+#print axioms FFVerif.C19.engine_pdd
+#print axioms FFVerif.C19.engine_cpmg
+#print axioms FFVerif.C19.engine_udd
+#print axioms FFVerif.C19.engine_cdd
+#print axioms FFVerif.C19.se_example_mask
+#print axioms FFVerif.C19.se_example
 #print axioms FFVerif.Pins.pinFID
 #print axioms FFVerif.Pins.pinSE
 #print axioms FFVerif.Pins.pinPDD
